@@ -397,12 +397,27 @@ type backend struct {
 	prep func(q string) string
 }
 
-func backends() []backend {
+func backends() []backend { return backendsSeed(0) }
+
+// backendsSeed: the portfolio with a random seed (0: the solvers' defaults). Quantifier
+// instantiation is incomplete, so a proof found with one seed can be missed with another;
+// retries vary the seed instead of only waiting longer.
+func backendsSeed(seed int) []backend {
+	z3seed := func(argv []string) []string {
+		if seed > 0 {
+			argv = append(argv[:len(argv)-1], fmt.Sprintf("smt.random_seed=%d", seed), fmt.Sprintf("sat.random_seed=%d", seed), argv[len(argv)-1])
+		}
+		return argv
+	}
 	return []backend{
-		{"z3-5.1.0", func(f string, ms int) []string { return []string{"z3-new", fmt.Sprintf("-t:%d", ms), f} }, nil},
-		{"z3-4.8.12", func(f string, ms int) []string { return []string{"/usr/bin/z3", fmt.Sprintf("-t:%d", ms), f} }, nil},
+		{"z3-5.1.0", func(f string, ms int) []string { return z3seed([]string{"z3-new", fmt.Sprintf("-t:%d", ms), f}) }, nil},
+		{"z3-4.8.12", func(f string, ms int) []string { return z3seed([]string{"/usr/bin/z3", fmt.Sprintf("-t:%d", ms), f}) }, nil},
 		{"cvc5-1.0.3", func(f string, ms int) []string {
-			return []string{"cvc5", "--lang=smt2", fmt.Sprintf("--tlimit=%d", ms), f}
+			argv := []string{"cvc5", "--lang=smt2", fmt.Sprintf("--tlimit=%d", ms)}
+			if seed > 0 {
+				argv = append(argv, fmt.Sprintf("--seed=%d", seed))
+			}
+			return append(argv, f)
 		}, func(q string) string {
 			const pm = "(set-option :produce-models true)\n"
 			if strings.HasPrefix(q, pm) {
@@ -420,6 +435,11 @@ func (s *Solver) Check(name, query string, wantModel bool) SolverResult {
 }
 
 func (s *Solver) CheckT(name, query string, wantModel bool, timeout time.Duration) SolverResult {
+	return s.CheckSeed(name, query, wantModel, timeout, 0, "")
+}
+
+// CheckSeed: only > "" restricts the portfolio to one back end (stress mode).
+func (s *Solver) CheckSeed(name, query string, wantModel bool, timeout time.Duration, seed int, only string) SolverResult {
 	s.mu.Lock()
 	s.n++
 	id := s.n
@@ -434,7 +454,16 @@ func (s *Solver) CheckT(name, query string, wantModel bool, timeout time.Duratio
 		out   string
 		el    float64
 	}
-	bes := backends()
+	bes := backendsSeed(seed)
+	if only != "" {
+		var keep []backend
+		for _, b := range bes {
+			if b.name == only {
+				keep = append(keep, b)
+			}
+		}
+		bes = keep
+	}
 	ch := make(chan one, len(bes))
 	for _, be := range bes {
 		be := be
